@@ -376,6 +376,11 @@ def gen_plan(rng, tier):
     plan = {"sim": NAME, "sets": sets, "ops": ops, "enabled": enabled}
     if rng.random() < 0.15:
         plan["pyopt"] = 1  # environment: the library compiled as under `python -O`
+    g = rng.random()
+    if g < 0.1:
+        plan["gc"] = "disabled"      # environment: no cyclic garbage collection during the run
+    elif g < 0.2:
+        plan["gc"] = "every_op"      # ... or a full collection after every operation
     if tier == "thorough" and rng.random() < 0.004:
         plan["cold_crosscheck"] = True
     return plan
@@ -629,6 +634,10 @@ def _stale_flags(labels, stats):
 
 
 def _run(plan):
+    import gc as _gc
+
+    if plan.get("gc") == "disabled":
+        _gc.disable()
     if plan.get("pyopt"):
         # the library as `python -O` compiles it (assert statements stripped)
         from ..util import reimport_labella
@@ -725,6 +734,8 @@ def _run(plan):
                 eng["clean"] = None
 
     for step, op in enumerate(plan["ops"]):
+        if plan.get("gc") == "every_op":
+            _gc.collect()
         if step:
             recheck(step - 1)
         kind = op[0]
